@@ -134,6 +134,11 @@ func (n *SourceNode) Run(ctx context.Context) (err error) {
 		// when source node encounters the record with this position it needs to
 		// stop retrieving new records
 		stopPosition opencdc.Position
+		// stopRequested is set once the stop control message was received, only
+		// then stopPosition is known (an empty stopPosition is not the same as
+		// an unknown one: a record with an empty position must not be mistaken
+		// for the last record before any stop was requested)
+		stopRequested bool
 		// last processed position is stored in this position
 		lastPosition opencdc.Position
 	)
@@ -150,6 +155,7 @@ func (n *SourceNode) Run(ctx context.Context) (err error) {
 				Str(log.RecordPositionField, msg.Record.Position.String()).
 				Msg("stopping source node")
 			stopPosition = msg.Record.Position
+			stopRequested = true
 
 			if bytes.Equal(stopPosition, lastPosition) {
 				// we already encountered the record with the last position
@@ -168,7 +174,7 @@ func (n *SourceNode) Run(ctx context.Context) (err error) {
 			return msg.Nack(err, n.ID())
 		}
 
-		if bytes.Equal(stopPosition, lastPosition) {
+		if stopRequested && bytes.Equal(stopPosition, lastPosition) {
 			// it's the last record that we are supposed to process, stop here
 			return n.stop.reason
 		}
